@@ -145,7 +145,9 @@ func c03Observers(c *core.Ctx, res *core.Result) {
 				}
 				if rr.Chance(15) {
 					tx.Rollback()
-				} else if err := tx.Commit(); err != nil {
+				} else if err := tx.Commit(); kv.IsEngineBusy(err) {
+					continue // the engine gave the commit up (log in rotation): a failed transaction, must leave no trace
+				} else if err != nil {
 					report("Commit: " + err.Error())
 					return
 				} else {
@@ -248,10 +250,10 @@ func c03Torn(c *core.Ctx, res *core.Result) {
 	for i := 0; i < r.Range(3, 20); i++ {
 		k, v := key(r.Intn(nk)), []byte(fmt.Sprintf("pre-%d-%d", c.Idx, i))
 		if r.Chance(25) {
-			e.Delete(k)
-			model.Del(k)
-		} else {
-			e.Put(k, v)
+			if e.Delete(k) == nil {
+				model.Del(k)
+			}
+		} else if e.Put(k, v) == nil {
 			model.Put(k, v)
 		}
 	}
@@ -327,7 +329,11 @@ func c03Torn(c *core.Ctx, res *core.Result) {
 	for j := range valBuf {
 		valBuf[j] = '!'
 	}
-	if err := tx.Commit(); err != nil {
+	if err := tx.Commit(); kv.IsEngineBusy(err) {
+		res.Inconclusive = "the engine refused the final commit (log in rotation)"
+		e.Close()
+		return
+	} else if err != nil {
 		res.Violate("commit_error", "final commit failed: "+err.Error(), nil)
 		e.Close()
 		return
